@@ -36,7 +36,7 @@ func init() {
 		Name: "C20.batching", Prop: "C20", Race: true,
 		Cases: func(tier string) int { return tierN(tier, 60, 2000) },
 		Run:   runBatching,
-		Rule: "the real async client (linger 0/1/5 ms, max 1/2/7/1000 requests per batch, values up to 60 KB so that the 128 KiB batch size splits) against a fake service with 1..6 shards whose answers are a function of the request alone; 2..8 caller goroutines issue 40..200 puts (unique value = operation id), deletes and gets, some answered UNEXPECTED_VERSION_ID / KEY_NOT_FOUND by design; faults per case: none, a retriable refusal (NodeIsNotLeader) of the k-th write or read request of one shard, a non-retriable failure of it, per-shard delays; " +
+		Rule: "the real async client (linger 0/1/5 ms, max 1/2/7/1000 requests per batch, values up to 60 KB so that the 128 KiB batch size splits) against a fake service with 1..6 shards whose answers are a function of the request alone; 2..8 caller goroutines issue 40..200 puts (unique value = operation id), deletes and gets, some answered UNEXPECTED_VERSION_ID / KEY_NOT_FOUND by design; faults per case: none, a retriable refusal (NodeIsNotLeader) of the k-th write or read request of one shard (for reads also after the first chunk of the answer is out), a non-retriable failure of it, per-shard delays; " +
 			"oracle: every returned channel yields exactly one result and is closed (none within the client's own request timeout + margin = violation), the result is the fake's answer to that very operation (version id, key, value, status), an operation that failed is one the fake never applied, one that succeeded was applied exactly once, and no operation fails unless a fault was injected on a write stream or a non-retriable one on a read (a refused read must be retried transparently); " +
 			"non-trivial = >= 1 request carried >= 2 operations and (if a fault was planned) it fired; distinct = (config, fault, batch-size profile)",
 		MinNontrivial:    func(tier string) int { return tierN(tier, 25, 800) },
@@ -94,7 +94,7 @@ func runBatching(tier string, seed uint64, idx int) core.Result {
 	srv.SetRanges(ranges)
 	linger := []time.Duration{0, time.Millisecond, 5 * time.Millisecond}[rng.IntN(3)]
 	maxReq := []int{1, 2, 7, 1000}[rng.IntN(4)]
-	faultKind := []string{"none", "none", "retriable-write", "retriable-read", "fatal-write", "fatal-read", "delays"}[rng.IntN(7)]
+	faultKind := []string{"none", "none", "retriable-write", "retriable-read", "retriable-read-midstream", "fatal-write", "fatal-read", "delays"}[rng.IntN(8)]
 	faultShard := ranges[rng.IntN(len(ranges))].ID
 	faultAt := 1 + rng.IntN(4)
 	var fired atomic.Int64
@@ -123,6 +123,15 @@ func runBatching(tier string, seed uint64, idx int) core.Result {
 			}
 			return nil
 		}
+	case "retriable-read-midstream":
+		// the service refuses a read after part of the answer is out; the retry must start from scratch
+		srv.ReadFaultMid = func(shard int64, n int) error {
+			if shard == faultShard && n <= faultAt {
+				fired.Add(1)
+				return errNotLeader
+			}
+			return nil
+		}
 	case "delays":
 		ds := map[int64]time.Duration{}
 		for _, rg := range ranges {
@@ -131,6 +140,9 @@ func runBatching(tier string, seed uint64, idx int) core.Result {
 		srv.Delay = func(shard int64) time.Duration { return ds[shard] }
 	}
 	chunk := 1 + rng.IntN(5)
+	if faultKind == "retriable-read-midstream" {
+		chunk = 1 + rng.IntN(2)
+	}
 	srv.ChunkSize = func() int { return chunk }
 
 	const reqTimeout = 3 * time.Second
